@@ -9,6 +9,30 @@ ROOT = os.path.dirname(os.path.dirname(os.path.abspath(__file__)))
 sys.path.insert(0, ROOT)
 sys.path.insert(0, "/repo")
 
+TECH = {
+ "C01": "property-based testing: Hypothesis-generated problems x configurations, dense KKT oracle of the user's problem",
+ "C02": "property-based testing: generated infeasible / unbounded / limited runs, virtual and real clock, status oracles from the dense reference",
+ "C03": "property-based testing: generated convex QPs of the stated class, convergence-within-budget oracle",
+ "C04": "differential property-based testing: independent reference transformation, bit-exact comparison",
+ "C05": "property-based testing over histories: recording Problem wrapper, exact bound oracle on every evaluation",
+ "C06": "generated crash search with exception bucketing by (type, innermost pygradflow function), collect-then-shrink",
+ "C07": "fault injection enumerated inside generated cases (k-th evaluation, factorisation, solve, persistent region) with a phase oracle",
+ "C08": "stop-position enumeration inside generated cases (every iteration budget, every virtual-clock deadline) vs. prefix oracle",
+ "C09": "metamorphic property-based testing: observed vs unobserved twin runs, bit-wise digests, pattern virtual clock",
+ "C10": "model-based stateful testing (Hypothesis RuleBasedStateMachine, recorded operations replayed by a pure check; model = first digest per key)",
+ "C11": "property-based testing: deep snapshots of caller-owned objects + cached-vs-fresh twin runs",
+ "C12": "property-based testing over histories: trace / callback / result consistency oracle, re-solve with a late observer",
+ "C13": "differential property-based testing against an independent dense numpy implementation of the definitions",
+ "C14": "differential property-based testing: every step-solver x linear-solver x Newton variant vs dense numpy.linalg.solve",
+ "C15": "property-based testing over histories: consecutive-step oracle, independent implicit-Euler residual, injected failures",
+ "C16": "property-based testing over histories: penalty monotonicity / bound oracle, re-solve, Newton step for the recorded penalty",
+ "C17": "differential property-based testing: dense residual / backward-error oracle per solver's stated tolerance",
+ "C18": "exhaustive small-scope enumeration + Hypothesis RuleBasedStateMachine + solver-level replay against a history-based Pareto-front oracle",
+ "C19": "property-based testing: correct vs single-entry-corrupted derivative twins, localisation oracle",
+ "C20": "property-based testing with exact power-of-two arithmetic oracle over wide-magnitude data",
+}
+NOTE = "search, not proof: absence of violations is not established; trusts numpy/scipy dense linear algebra and the reference model in vf/spec.py (written from the definitions, never imports pygradflow); "
+
 props = [json.loads(l) for l in open(os.path.join(ROOT, "properties.jsonl"))]
 checks, na = [], []
 for p in props:
@@ -34,8 +58,8 @@ for p in props:
                 "text": getattr(mod, "LEVEL_TEXT", mod.__doc__.strip().split("\n\n")[0]),
                 "design_ref": f"DESIGN.md section 4, {pid}",
             },
-            "level_note": getattr(mod, "LEVEL_NOTE", "; ".join(getattr(mod, "ASSUMPTIONS", [])) or "search, not proof: absence of violations is not established"),
-            "technique": getattr(mod, "TECHNIQUE", "property-based testing (Hypothesis generated inputs vs. explicit oracle)"),
+            "level_note": getattr(mod, "LEVEL_NOTE", NOTE + "; ".join(getattr(mod, "ASSUMPTIONS", []))),
+            "technique": getattr(mod, "TECHNIQUE", TECH[pid]),
         }
     )
 
